@@ -24,6 +24,9 @@ PENDING = {}
 LEVEL_TEXT = 'Seeded search over schedules, configurations, fault sequences and operation histories with reference models as oracles; a clean batch is evidence, not proof.'
 
 CHECKS = {
+    'C06': dict(engine='history', design='5/C06, 4.5',
+                technique='deterministic simulation of operation histories: a tape-driven state machine applies up to 30 mutating, observing and environment operations (caller mutates shared arrays, edits operator results, writes through fetched rows) to RaggedArrays and compares every observer with a list-of-rows model after each step; tape minimisation yields the shortest failing history',
+                note='Trusted base: the list-of-rows model (plain NumPy per row). Only the index/value grammar of upstream tests and docstrings is generated. The history is the only nondeterminism this property has.'),
     'C10': dict(engine='simpool+simmpi', design='5/C10, 4.2',
                 technique='deterministic simulation: batch reassignment on simulated worker processes, simulated joblib and a drawn machine memory size (1..n batches), tape-chosen dispatch/completion order; partition step after serial and simulated-MPI clustering runs; brute-force nearest-centre oracle',
                 note='Trusted base: simpool/simmpi, mdtraj rmsd as reference metric for trajectories, float64 norms for features. <= 8 files x <= 8 frames, <= 5 centres; <= 40 frames for partition.'),
